@@ -154,6 +154,7 @@ def _judge(ctx, prefix, case, layer, X, g, step, label, fetched=None, prev=None)
     hi = (Y.max() - case["omax"]) if case["omax"] is not None else -np.inf
     v = max(lo, hi)
     tb = core.REL_TOL * core.scale_of(Y, [b for b in (case["omin"], case["omax"]) if b is not None])
+    tb = max(tb, tw)      # same allowance as monotonicity: the update is written as `variable += projection - variable`
     ctx.check(prefix + "/bounded-on-grid", v <= tb,
               "output range [%.6g, %.6g] leaves [%s, %s] after %s" % (Y.min(), Y.max(), case["omin"], case["omax"], label),
               info=dict(info, min=float(Y.min()), max=float(Y.max())), ratio=max(v, 0) / tb)
